@@ -13,7 +13,7 @@ from hypothesis import strategies as st
 from conda_content_trust import authentication as A, common as C
 
 from props import C02, C03, C11
-from vlib import configrun, gen_deleg, gen_envelope as GE, gen_json as G, gen_metadata as GM, gen_repodata as GR, keys, ref_grammar as g, \
+from vlib import siblings, configrun, gen_deleg, gen_envelope as GE, gen_json as G, gen_metadata as GM, gen_repodata as GR, keys, ref_grammar as g, \
     ref_openpgp, ref_verify as RV
 from vlib.ref_canon import canon, jeq
 from vlib.runner import REPO, ROOT, Inconclusive, Unit, Violation
@@ -89,8 +89,12 @@ def run_cli(cmd, args, cwd, extra_path=(), env_extra=None, dead_stdout=False):
 
 def library_verdict(tf, uf):
     try:
-        U = C.load_metadata_from_file(uf)
-        T = C.load_metadata_from_file(tf)
+        # the CONTENT of the two files, parsed by the harness (not by the library's loader: a loader that misreads a file would
+        # misread it for the command line and for this oracle alike)
+        with open(uf, "rb") as f:
+            U = json.load(f)
+        with open(tf, "rb") as f:
+            T = json.load(f)
         t = U["signed"]["type"]
         if t == "root":
             A.verify_root(T, U)
@@ -120,8 +124,22 @@ def _verify_cases_ok(draw):
 
 
 @st.composite
-def _verify_cases(draw, kinds=("root", "root-ok", "delegation", "delegation-ok", "delegation-ok", "malformed", "malformed", "numeric-spelling")):
+def _verify_cases(draw, kinds=("root", "root-ok", "delegation", "delegation-ok", "delegation-ok", "malformed", "malformed", "numeric-spelling", "raw-utf8")):
     kind = draw(st.sampled_from(list(kinds)))
+    if kind == "raw-utf8":
+        # files produced by another tool: raw UTF-8 instead of \uXXXX escapes, some of them bigger than any read buffer, with
+        # 2-, 3- and 4-byte characters at every offset modulo the usual block sizes
+        seeds = draw(keys.seed_lists(1, 2))
+        pubs = [keys.pub_hex(x) for x in seeds]
+        utype = draw(st.sampled_from(["key_mgr", "pkg_mgr"]))
+        T = GM.wrap(GM.signed_part("root", {utype: {"pubkeys": pubs, "threshold": 1}, "root": {"pubkeys": pubs[:1], "threshold": 1}}, version=3))
+        text = ("x" * draw(st.integers(0, 8))) + "\u00e9\u20ac\U0001f600" * draw(st.sampled_from([3, 400, 15000, 30000]))
+        if utype == "key_mgr":
+            payload = GM.signed_part("key_mgr", {"pkg_mgr": {"pubkeys": pubs[:1], "threshold": 1}}, version=1, extra={"note": text})
+        else:
+            payload = {"type": "pkg_mgr", "name": "caf\u00e9", "summary": text}
+        U = GM.sign_envelope(GM.wrap(payload), seeds[:draw(st.integers(0, 1)) + (1 if draw(st.integers(0, 3)) else 0)][:len(seeds)], False)
+        return {"kind": kind, "T": T, "U": U, "flaw": "bytes=%d+" % (10000 * (len(text.encode()) // 10000))}
     if kind == "numeric-spelling":
         # numbers as another JSON producer writes them: 2.0 for 2, true for 1 (the library's integer check lets integral
         # floats and booleans through; whatever the library decides, the command line must report exactly that)
@@ -153,7 +171,7 @@ def _verify_cases(draw, kinds=("root", "root-ok", "delegation", "delegation-ok",
         seeds = draw(keys.seed_lists(1, 4))
         pubs = [keys.pub_hex(x) for x in seeds]
         thr = draw(st.integers(1, len(seeds)))
-        utype = draw(st.sampled_from(["key_mgr", "key_mgr", "pkg_mgr", "some role", "caf\u00e9"]))
+        utype = draw(st.sampled_from(["key_mgr", "key_mgr", "pkg_mgr", "some role", "caf\u00e9", "Pkg_Mgr", " pkg_mgr ", "KEY_MGR", "pkg_mgr\n"]))
         T = GM.wrap(GM.signed_part(draw(st.sampled_from(["root", "key_mgr"])), {utype: {"pubkeys": pubs, "threshold": thr},
                                                                                 "root": {"pubkeys": pubs[:1], "threshold": 1}}, version=3))
         if utype == "key_mgr":
@@ -200,6 +218,9 @@ def _write_pair(d, case):
     tf, uf = os.path.join(d, "trusted.json"), os.path.join(d, "untrusted.json")
     for fn, doc in ((tf, case["T"]), (uf, case["U"])):
         with open(fn, "wb") as f:
+            if case["kind"] == "raw-utf8":
+                f.write(json.dumps(doc, ensure_ascii=False, indent=1).encode("utf-8"))
+                continue
             try:
                 f.write(canon(doc))
             except TypeError:
@@ -320,7 +341,7 @@ REPOS = ["valid", "valid", "valid", "no-packages", "not-json", "missing", "own-s
 @st.composite
 def _sign_cases(draw):
     return {"doc": draw(GR.repodata(max_artifacts=4)), "seed": draw(keys.seeds).hex(), "keyfile": draw(st.sampled_from(KEYFILES)),
-            "repo": draw(st.sampled_from(REPOS)), "ep": draw(st.integers(0, 2))}
+            "repo": draw(st.sampled_from(REPOS)), "ep": draw(st.integers(0, 2)), "sibling": draw(st.sampled_from(siblings.KINDS))}
 
 
 def check_sign(case):
@@ -355,6 +376,8 @@ def check_sign(case):
         if original is not None:
             with open(rf, "wb") as f:
                 f.write(original)
+        # left-overs of editors / earlier runs next to the file (a stale lock, a back-up, a half-written temporary)
+        siblings.plant(rf, case.get("sibling", "none"))
         name, cmd = entry_points(d)[case["ep"]]
         rc, out, err = run_cli(cmd, ["sign-artifacts", rf, kf], d)
         now = open(rf, "rb").read() if os.path.exists(rf) else None
@@ -377,7 +400,7 @@ def check_sign(case):
     finally:
         shutil.rmtree(d, ignore_errors=True)
     return {"nontrivial": True, "labels": ["key=" + case["keyfile"], "repo=" + case["repo"], "exit=%s" % ("0" if rc == 0 else "nonzero"),
-                                           "ep=%d" % case["ep"]], "count": {"processes": 1}}
+                                           "ep=%d" % case["ep"], "sibling=" + case.get("sibling", "none")], "count": {"processes": 1}}
 
 
 # ---- gpg-sign -------------------------------------------------------------------------------------------------------------
